@@ -1,0 +1,24 @@
+//go:build verif
+
+// Contracts for package sniffing, read by /verif/govc (comment-only file).
+
+package sniffing
+
+// C06: the TLS ClientHello walk never reads outside the bytes it was given, for every byte string.
+// (All obligations are the generated index/slice checks plus the preconditions of the Locator calls.)
+
+//@ func (*Sniffer).SniffTls
+//@   requires s.buf != nil
+//@   modifies *
+
+//@ func extractSniFromTls
+//@   requires search != nil
+//@   modifies *
+
+//@ func findSniExtension
+//@   requires search != nil
+//@   modifies *
+//@   loop 1
+//@     invariant 0 <= i && i <= search.Len()
+//@   loop 2
+//@     invariant 0 <= i && i + 6 <= j && indicatorLen >= 0 && iNextField <= search.Len() && iNextField == i + 4 + extLength
